@@ -307,8 +307,8 @@ def r06_5(ck, F):
             raise mir.AnchorMissing(f"remote_rx.recv() branch of the select in {fn}")
         poll = sel["poll_bb"]
         region = b.reach([arm["target"]], avoid=[poll])
-        errs = [tb for sb, tb, m, e in switch_edges(b, lambda e: e[0] == "discr" and "@Ok" not in mir.show(e), region)
-                if m == "Err" and e[1][0] == "proj" and e[1][2] and e[1][2][0].startswith("@_")]
+        errs = [tb for sb, tb, m, e in outcome_edges(b, region, lambda x: "@Ok" not in mir.show(x))
+                if m == "Err" and e[0] == "proj" and e[2] and e[2][0].startswith("@_")]
         sends = {bb for bb, t in b.calls(send_callee) if bb in region}
         if not errs or not sends:
             raise mir.AnchorMissing(f"Err outcome / local send in the receive branch of {fn}")
@@ -333,3 +333,5 @@ def r06_5(ck, F):
 def run(ck, F):
     for r in (r06_1, r06_2, r06_2b, r06_3, r06_3b, r06_4, r06_5):
         ck.run_rule(r)
+    import c19
+    ck.run_rule(c19.r19_5)
